@@ -12,7 +12,10 @@ import (
 	"time"
 )
 
-func init() { register("c10-oracle", cmdC10Oracle) }
+func init() {
+	register("c10-oracle", cmdC10Oracle)
+	register("c08-oracle", cmdC08Oracle)
+}
 
 type bframe struct {
 	stack    []int
@@ -136,6 +139,135 @@ func cmdC10Oracle(args []string) {
 		}
 		if len(samples) < 2 && len(o.Runs) > 3 {
 			samples = append(samples, fmt.Sprintf("%s: %d invocations, verdict %s; first: %v", p.Root.coq(), len(o.Runs), o.Verdict, o.Runs[0].Events))
+		}
+	}
+	js, _ := json.Marshal(map[string]any{"stats": stats, "failures": fails, "samples": samples})
+	fmt.Println(string(js))
+}
+
+// checkRepeat: the check/action discipline on the harness's state-machine log (nested machines on a stack)
+func checkRepeat(rep []string) string {
+	type mach struct {
+		n      int
+		haschk bool
+		st     string // need, loop, act
+		cur    int
+	}
+	var stack []*mach
+	for k, e := range rep {
+		f := strings.Fields(strings.Trim(e, "()"))
+		switch f[0] {
+		case "B":
+			n, _ := strconv.Atoi(f[1])
+			m := &mach{n: n, haschk: f[2] == "true", st: "loop"}
+			if m.haschk && n > 0 {
+				m.st = "need"
+			}
+			stack = append(stack, m)
+		case "E":
+			if len(stack) == 0 {
+				return "end without begin"
+			}
+			stack = stack[:len(stack)-1]
+		case "UChk":
+			if len(stack) == 0 {
+				return fmt.Sprintf("event %d: invariant outside a state machine", k)
+			}
+			m := stack[len(stack)-1]
+			if m.st != "need" {
+				return fmt.Sprintf("event %d: invariant runs when none is due (state %s)", k, m.st)
+			}
+			m.st = "loop"
+		case "UAct":
+			if len(stack) == 0 {
+				return fmt.Sprintf("event %d: action outside a state machine", k)
+			}
+			m := stack[len(stack)-1]
+			i, _ := strconv.Atoi(f[1])
+			if m.st != "loop" {
+				return fmt.Sprintf("event %d: action %d starts in state %s", k, i, m.st)
+			}
+			if i < 0 || i >= m.n {
+				return fmt.Sprintf("event %d: action %d is not one of the %d supplied", k, i, m.n)
+			}
+			m.st, m.cur = "act", i
+		case "UActEnd":
+			if len(stack) == 0 {
+				return fmt.Sprintf("event %d: action end outside a state machine", k)
+			}
+			m := stack[len(stack)-1]
+			i, _ := strconv.Atoi(f[1])
+			how, _ := strconv.Atoi(f[2])
+			if m.st != "act" || m.cur != i {
+				return fmt.Sprintf("event %d: end of action %d without its start", k, i)
+			}
+			if how == 0 && m.haschk {
+				m.st = "need"
+			} else {
+				m.st = "loop"
+			}
+		}
+	}
+	return ""
+}
+
+func cmdC08Oracle(args []string) {
+	fs := flag.NewFlagSet("c08-oracle", flag.ExitOnError)
+	n := fs.Int("n", 100, "programs")
+	seed := fs.Uint64("seed", 1, "generator seed")
+	shrinkMs := fs.Int("shrinkms", 200, "shrink time (ms)")
+	only := fs.Int("only", -1, "just this index")
+	_ = fs.Parse(args)
+	calibrate()
+	pf := ProfAll
+	pf.Repeat = 8
+	stats := map[string]int{}
+	var fails []map[string]any
+	var samples []string
+	for i := 0; i < *n; i++ {
+		if *only >= 0 && i != *only {
+			continue
+		}
+		r := &Rng{s: *seed*4000037 + uint64(i)}
+		p := GenProgram(r, pf)
+		o := RunCheck(p, "T", pick(r, 5, 20, 100), r.next()|1, time.Duration(*shrinkMs)*time.Millisecond)
+		stats["checks_run"]++
+		stats["invocations"] += len(o.Runs)
+		for j, run := range o.Runs {
+			for _, e := range run.Rep {
+				switch {
+				case strings.HasPrefix(e, "(UAct "):
+					stats["actions"]++
+				case e == "UChk":
+					stats["invariant_runs"]++
+				case strings.HasPrefix(e, "(UActEnd") && !strings.HasSuffix(e, " 0)"):
+					stats["actions_skipped_or_rejected"]++
+				}
+			}
+			if msg := checkRepeat(run.Rep); msg != "" {
+				fails = append(fails, map[string]any{"property": "C08", "what": "state-machine discipline violated: " + strings.SplitN(msg, ": ", 2)[len(strings.SplitN(msg, ": ", 2))-1],
+					"detail": msg, "invocation": j, "events": run.Rep, "program": p.Root.coq(), "index": i})
+				break
+			}
+		}
+		if len(samples) < 2 && len(o.Runs) > 2 && len(o.Runs[0].Rep) > 4 {
+			samples = append(samples, fmt.Sprintf("%s: verdict %s; first invocation: %v", p.Root.coq(), o.Verdict, o.Runs[0].Rep))
+		}
+	}
+	// the no-valid-action case: a machine whose only action always skips must fail, not hang
+	{
+		act := &Stmt{Op: "skip", Variant: "skip", Msg: 1}
+		p := NewProgram(&Stmt{Op: "repeat", Id: 1, E: cconst(zv(0)), Acts: []*Stmt{act, act}, Next: retUnit()})
+		done := make(chan checkObs, 1)
+		go func() { done <- RunCheck(p, "T", 5, 12345, 0) }()
+		select {
+		case o := <-done:
+			stats["no_valid_action_runs"]++
+			if !(o.Verdict == "failed" && strings.Contains(o.Msg, "valid")) {
+				fails = append(fails, map[string]any{"property": "C08", "what": "a machine with no runnable action does not report the no-valid-action failure", "detail": o.Verdict + " " + o.Msg, "index": -1})
+			}
+		case <-time.After(20 * time.Second):
+			fails = append(fails, map[string]any{"property": "C08", "what": "a machine with no runnable action loops forever", "index": -1})
 		}
 	}
 	js, _ := json.Marshal(map[string]any{"stats": stats, "failures": fails, "samples": samples})
